@@ -17,6 +17,7 @@ total = 0
 for f in sorted(glob.glob(os.path.join(os.path.dirname(os.path.abspath(__file__)), "props", "c*.py"))):
     mod = importlib.import_module("props." + os.path.basename(f)[:-3])
     for m, names in mod.SPEC["theorems_by_module"].items():
+        verif.sh(["lake", "build", m], cwd=verif.LEAN, timeout=3600)   # Tie modules are not part of the library root
         res = verif.audit(ctx, m, names)
         for t, (ok, axs) in res.items():
             total += 1
